@@ -7,7 +7,7 @@ import panics
 
 CONFIGS_QUICK = ["F_all", "F_def", "F_noenc"]  # every configuration whose cfg-gated code the property depends on
 CONFIGS_THOROUGH = ["F_all", "F_def", "F_noenc"]
-TECHNIQUE = 'static analysis: typestate/transition-relation extraction from MIR paths, back-edge progress rule, who-may-write rule for offsets, panic-site audit with local discharge arguments and audited exemptions, attribute-automaton termination premises (C11 table re-evaluated)'
+TECHNIQUE = 'static analysis: typestate/transition-relation extraction from MIR paths, back-edge progress rule, who-may-write rule for offsets, panic-site audit with local discharge arguments and audited exemptions, attribute-automaton termination premises (C11 table re-evaluated), resolver invariants (C05) re-evaluated as exemption premises'
 EXPLANATION = (
     "forbid(unsafe_code) at crate level; terminal-state typestate of the event loop (both instantiations of "
     "read_event_impl!): the final classification sends Ok(Eof) and every Err other than IllFormed to state Done, the Done "
